@@ -905,6 +905,32 @@ std::string generateDoubleCode(const std::string &value)
     return value.substr(0, ePos) + ".0" + value.substr(ePos);
 }
 
+std::string Generator::GeneratorImpl::generateNumberCode(const std::string &value) const
+{
+    // Generate some code for a number computed by the analyser (e.g., the
+    // scaling factor between two equivalent variables).
+    // Note: such a number is not necessarily finite. For instance, the scaling
+    //       factor from/to a units with a multiplier of zero is infinite, and
+    //       that from/to a units with a negative multiplier is not a number.
+    //       Those have no decimal representation (i.e. "inf.0" and "nan.0" are
+    //       not numbers in any language), so we use our profile's infinity and
+    //       NaN strings instead.
+
+    if ((value == "inf") || (value == "+inf")) {
+        return mProfile->infString();
+    }
+
+    if (value == "-inf") {
+        return mProfile->minusString() + mProfile->infString();
+    }
+
+    if ((value == "nan") || (value == "-nan") || (value == "+nan")) {
+        return mProfile->nanString();
+    }
+
+    return generateDoubleCode(value);
+}
+
 std::string Generator::GeneratorImpl::generateDoubleOrConstantVariableNameCode(const VariablePtr &variable) const
 {
     if (isCellMLReal(variable->initialValue())) {
@@ -1794,7 +1820,7 @@ std::string Generator::GeneratorImpl::generateCode(const AnalyserEquationAstPtr 
 
         break;
     case AnalyserEquationAst::Type::CN:
-        code = generateDoubleCode(ast->value());
+        code = generateNumberCode(ast->value());
 
         break;
     case AnalyserEquationAst::Type::DEGREE:
@@ -1905,7 +1931,7 @@ std::string Generator::GeneratorImpl::generateInitialisationCode(const AnalyserV
     std::string scalingFactorCode;
 
     if (!areNearlyEqual(scalingFactor, 1.0)) {
-        scalingFactorCode = generateDoubleCode(convertToString(1.0 / scalingFactor)) + mProfile->timesString();
+        scalingFactorCode = generateNumberCode(convertToString(1.0 / scalingFactor)) + mProfile->timesString();
     }
 
     return mProfile->indentString()
